@@ -168,6 +168,9 @@ func cmdCheck(args []string) int {
 	if tier == "thorough" {
 		timeout = 120
 	}
+	if v, err := strconv.Atoi(os.Getenv("GOCV_TIMEOUT")); err == nil && v > 0 {
+		timeout = v // the must-fail corpus runs with a short timeout: an obligation that fails is reported either way
+	}
 	tExec := time.Now()
 	var all []*Obligation
 	regionFor := map[string][]KnownFinding{}
